@@ -10,6 +10,13 @@ import "time"
 func Harness_C12_authnrequest() {
 	sp := verifSP("sp")
 	sp.AuthnNameIDFormat = NameIDFormat(verifNondetString("sp.AuthnNameIDFormat"))
+	// what the IdP's metadata lists as supported formats is not the SP's configuration
+	switch verifChoose("idp.nameidformats", 3) {
+	case 1:
+		sp.IDPMetadata.IDPSSODescriptors[0].NameIDFormats = []NameIDFormat{TransientNameIDFormat}
+	case 2:
+		sp.IDPMetadata.IDPSSODescriptors[0].NameIDFormats = []NameIDFormat{PersistentNameIDFormat, EmailAddressNameIDFormat}
+	}
 	var drawn []byte
 	calls := 0
 	RandReader = verifRandReader{&drawn, &calls}
